@@ -550,6 +550,9 @@ func (n *Net) Dial(addr string) (net.Conn, error) {
 	h := n.nextHost
 	ca := Addr{fmt.Sprintf("10.0.%d.%d:%d", h/250, h%250+1, 40000+h)}
 	c, s := n.pair(ca, l.addr)
+	if t := simrt.Current(); t != nil {
+		c.Label = t.Name // who dialled (task role label), so that a harness can find its connection
+	}
 	l.queue = append(l.queue, s)
 	return c, nil
 }
